@@ -22,7 +22,7 @@ use super::{
 
 pub fn parameterization(input: Input<'_>) -> ParserResult<'_, Parameterization> {
     into(in_braces(separated_list1(
-        char(COMMA),
+        skip_ws_and_comments(char(COMMA)),
         skip_ws_and_comments(alt((
             into(separated_pair(
                 asn1_type,
@@ -43,7 +43,7 @@ pub fn parameterization(input: Input<'_>) -> ParserResult<'_, Parameterization> 
 
 pub fn parameters(input: Input<'_>) -> ParserResult<'_, Vec<Parameter>> {
     into(in_braces(separated_list1(
-        char(COMMA),
+        skip_ws_and_comments(char(COMMA)),
         skip_ws_and_comments(alt((
             map(asn1_value, Parameter::ValueParameter),
             map(asn1_type, Parameter::TypeParameter),
